@@ -89,7 +89,7 @@ class UnknownSpliceDescriptor(SpliceDescriptor):
         bit_reader.read_bytes(kwargs['length'] - 4, 'data')
 
     def encode_fields(self, dest):
-        dest.write_bytes(self.data)
+        dest.write_bytes('data')
 
 class AvailDescriptor(SpliceDescriptor):
     TAG = 0
